@@ -84,7 +84,17 @@ func (ex *Exec) newFrame(fn *ssa.Function, args []*Val, depth int) *Frame {
 		}
 	}
 	if fr.contract != nil {
-		for k, ls := range fr.contract.Loops {
+		for k, ls0 := range fr.contract.Loops {
+			// keep the clauses that apply to this build configuration
+			ls := &LoopSpec{Decreases: ls0.Decreases, Unroll: ls0.Unroll}
+			for _, c := range ls0.Invariants {
+				if c.Cfg == "" || c.Cfg == ex.p.cfgName {
+					ls.Invariants = append(ls.Invariants, c)
+				}
+			}
+			if len(ls.Invariants) == 0 && len(ls0.Invariants) > 0 {
+				continue
+			}
 			found := false
 			for _, l := range fr.loops {
 				if l.ordinal == k {
@@ -302,6 +312,8 @@ func (ex *Exec) enterLoop(fr *Frame, l *loopInfo, st *State) *State {
 			break
 		}
 	}
+	ex.specWhere = fmt.Sprintf("loop %d (block %d) entry, quiet=%d", l.ordinal, l.header.Index, ex.quiet)
+	defer func() { ex.specWhere = "" }()
 	l.pre = st
 	// 1. invariants on entry
 	if l.spec != nil {
